@@ -405,7 +405,9 @@ class deadline:
     def __enter__(self):
         try:
             self.old = signal.signal(signal.SIGALRM, self._fire)
-            signal.alarm(self.seconds)
+            signal.signal(signal.SIGVTALRM, self._fire)
+            signal.setitimer(signal.ITIMER_VIRTUAL, float(self.seconds))     # CPU time of this process: immune to a busy machine
+            signal.alarm(10 * self.seconds)                                   # wall-clock backstop
             self.armed = True
         except ValueError:          # not in the main thread
             self.armed = False
@@ -413,6 +415,7 @@ class deadline:
 
     def __exit__(self, *a):
         if self.armed:
+            signal.setitimer(signal.ITIMER_VIRTUAL, 0)
             signal.alarm(0)
             signal.signal(signal.SIGALRM, self.old)
         return False
